@@ -268,3 +268,9 @@ func (w *PlainWrapPP) PostProcessAfterInitialization(c any, name string) (any, e
 	}
 	return c, nil
 }
+
+// OrderedWrapPP is a WrapPP that takes part in ordering: it sorts in front of every unordered post-processor (the
+// nodes that are post-processors themselves among them), so it is already active while those are being prepared.
+type OrderedWrapPP struct{ *WrapPP }
+
+func (o *OrderedWrapPP) Order() int { return -5 }
